@@ -429,13 +429,18 @@ impl Interp {
                 for (cv, blk) in cases {
                     let c = self.expr(gid, cv, fr, depth)?;
                     if values_equal(&v, &c) {
-                        // `break` inside a Go switch leaves the switch, not an enclosing loop —
-                        // goml never emits break inside switch for that purpose, so propagate.
-                        return self.block(gid, &blk.stmts, fr, depth);
+                        // as in Go: `break` inside a switch leaves the switch, not an enclosing loop
+                        return Ok(match self.block(gid, &blk.stmts, fr, depth)? {
+                            Flow::Break => Flow::Normal,
+                            other => other,
+                        });
                     }
                 }
                 match default {
-                    Some(b) => self.block(gid, &b.stmts, fr, depth),
+                    Some(b) => Ok(match self.block(gid, &b.stmts, fr, depth)? {
+                        Flow::Break => Flow::Normal,
+                        other => other,
+                    }),
                     None => Ok(Flow::Normal),
                 }
             }
@@ -469,7 +474,10 @@ impl Interp {
                     (None, None) => Ok(Flow::Normal),
                 };
                 fr.vars.truncate(mark);
-                r
+                match r {
+                    Ok(Flow::Break) => Ok(Flow::Normal),
+                    other => other,
+                }
             }
         }
     }
